@@ -13,6 +13,12 @@ REPO = os.environ.get("VERIF_REPO", "/repo")
 WORK = os.path.join(VERIF, ".work")
 EVID = os.path.join(VERIF, "evidence")
 REPLAY = os.path.join(VERIF, "replay")
+if os.path.realpath(REPO) != "/repo":
+    # a run against a scratch copy of the repository (seeded changes, candidate fixes) keeps ALL its scratch
+    # output, its evidence and its replay files apart: /verif/evidence always describes /repo itself
+    WORK = os.path.join(VERIF, ".work", "alt-" + hashlib.sha1(os.path.realpath(REPO).encode()).hexdigest()[:10])
+    EVID = os.path.join(WORK, "evidence")
+    REPLAY = os.path.join(WORK, "replay")
 SCHEMA = "/root/.vp/EVIDENCE.schema.json"
 
 ENV = dict(os.environ)
